@@ -8,7 +8,7 @@
 (* given and accepted, the last observed state of every replica, which     *)
 (* operations are valid for which base register -- from the attributes the *)
 (* driver chose when it built them, never from the code's own answers),    *)
-(* evaluates the clause operators of Register.tla and accumulates the      *)
+(* evaluates the clause operators of Register.tla and reports the          *)
 (* (clause, line, facts) triples on which a clause is false.               *)
 (*                                                                         *)
 (* Fillers (valid root operations of the owner, pre-loaded so that the     *)
@@ -16,13 +16,13 @@
 (* every replica holds a prefix of one filler list, so a count stands for  *)
 (* a set; "operation set" = [ops, nf], "value" = [read, nfr].              *)
 (***************************************************************************)
-EXTENDS Naturals, Sequences, FiniteSets, TLC, Json, IOUtils, SequencesExt
+EXTENDS Naturals, Sequences, FiniteSets, TLC, Json, CSV, IOUtils, SequencesExt
 
 Rec == ndJsonDeserialize(IOEnv.TRACE)
 N == Len(Rec)
 
-VARIABLES l, g, viol, drift, stat, ntruns
-vars == <<l, g, viol, drift, stat, ntruns>>
+VARIABLES l, g, nviol, ndrift, stat, ntr
+vars == <<l, g, nviol, ndrift, stat, ntr>>
 
 \* the operators of Register.tla (parts 1 and 2); its state machine is not used here
 R == INSTANCE Register WITH Replicas <- {}, Pool <- <<>>, Limit <- 0, MaxDepth <- 0, InitBases <- {}, Crafts <- {},
@@ -181,27 +181,37 @@ Drifts(e) ==
                                    \/ e.obs.rerr # Cardinality(S(e.obs.ops) \ R!Applicable(g.P, g.B[e.r], S(e.obs.ops))) )
           THEN {"value"} ELSE {})
 
-\* ---- one step per line
-Init == l = 1 /\ g = NoGhost /\ viol = {} /\ drift = {} /\ ntruns = {}
+\* ---- one step per line.  Falsified clauses, drift and the runs with a non-trivial evaluation are
+\* appended to IOEnv.OUT as they are found (one JSON document per line), so that the state stays small
+\* however many known findings a long trace contains; the last line is the summary.
+Out(rec) == CSVWrite("%1$s", <<ToJson(rec)>>, IOEnv.OUT)
+Init == l = 1 /\ g = NoGhost /\ nviol = 0 /\ ndrift = 0 /\ ntr = FALSE
         /\ stat = [c \in Clauses |-> [n |-> 0, nt |-> 0]]
 Next ==
     /\ l <= N
     /\ LET e == Rec[l] IN
        IF ~WellFormed(e)
-       THEN /\ viol' = viol \cup {[clause |-> "Malformed", line |-> l, f |-> NoFacts]}
-            /\ UNCHANGED <<g, drift, stat, ntruns>>
-       ELSE LET evs == Evaluations(e) IN
-            /\ viol' = viol \cup {[clause |-> x.c, line |-> l, f |-> x.f] : x \in {y \in evs : ~y.ok}}
-            /\ drift' = drift \cup {[what |-> d, line |-> l] : d \in Drifts(e)}
+       THEN /\ Out([k |-> "viol", clause |-> "Malformed", line |-> l, f |-> NoFacts])
+            /\ nviol' = nviol + 1
+            /\ UNCHANGED <<g, ndrift, stat, ntr>>
+       ELSE LET evs == Evaluations(e)
+                bad == {y \in evs : ~y.ok}
+                dr == Drifts(e)
+                nontrivial == \E x \in evs : x.nt
+                fresh == e.ev = "Reset"
+            IN
+            /\ \A x \in bad : Out([k |-> "viol", clause |-> x.c, line |-> l, f |-> x.f])
+            /\ \A d \in dr : Out([k |-> "drift", what |-> d, line |-> l])
+            /\ (nontrivial /\ (fresh \/ ~ntr)) => Out([k |-> "nt", run |-> e.run])
+            /\ nviol' = nviol + Cardinality(bad)
+            /\ ndrift' = ndrift + Cardinality(dr)
             /\ stat' = [c \in Clauses |-> [n |-> stat[c].n + Cardinality({x \in evs : x.c = c}),
                                            nt |-> stat[c].nt + Cardinality({x \in evs : x.c = c /\ x.nt})]]
-            /\ ntruns' = IF \E x \in evs : x.nt THEN ntruns \cup {e.run} ELSE ntruns
+            /\ ntr' = IF fresh THEN nontrivial ELSE (ntr \/ nontrivial)
             /\ g' = NextGhost(e)
     /\ l' = l + 1
 Spec == Init /\ [][Next]_vars
 
 \* written once, in the state that has consumed the whole trace
-Report == l = N + 1 =>
-          ndJsonSerialize(IOEnv.OUT, << [lines |-> N, violations |-> SetToSeq(viol), drift |-> SetToSeq(drift),
-                                         stat |-> stat, ntruns |-> SetToSeq(ntruns)] >>)
+Report == l = N + 1 => Out([k |-> "end", lines |-> N, stat |-> stat, nviol |-> nviol, ndrift |-> ndrift])
 =============================================================================
